@@ -3,4 +3,4 @@
 cd "$(dirname "$0")" || exit 2
 export PYTHONPATH=/repo:/verif PYTHONHASHSEED=0 PYTHONDONTWRITEBYTECODE=1
 mkdir -p build evidence
-/venv/bin/python -B -m harness.selfcheck 2>&1 | grep -v '^WARNING conda'
+/venv/bin/python -B -m harness.selfcheck
